@@ -807,10 +807,16 @@ MANIFEST = {
              "pb_linearizable_no_retry_partial (executions WITH crashes, any N, in which no client takes the rcvResp time-out branch (no_resend): linearizable; "
              "monitor simulation on top of the crash invariant, a Put is linearized when every live replica holds it; non-vacuity: a Go-observed failover run); "
              "lin_checker_complete. "
+             "Assertion freedom WITH crashes and client re-sends, any N (final round): queued_messages_addressed_to_owner, put_bodies_wellformed, "
+             "pending_put_not_older_than_receiver, client_rcvResp_never_fails (client invariant that allows re-sends), response_messages_wellformed, "
+             "no_tla_evaluation_error (NO step at ANY label ever hits a TLA+ evaluation error: one half of assertion_free_statement outright) and, together, "
+             "assertion_free_crash_except_replica_answer_labels_partial: no step of any process fails an assertion or a TLA+ evaluation at any label other "
+             "than a replica's rcvSyncRespLoop / rcvReplicaRespLoop. "
              "REFUTED (witness by vm_compute, replayed on the real Go code on every run, known findings): assertion_free_refuted (4 replicas: stale SYNC_RESP after a "
              "restarted failover sync fails the assertion of rcvSyncRespLoop) and pb_linearizable_refuted (a Put re-sent after the primary crashed is applied twice). "
              "Full statements kept as Definitions: consistency_ok_statement (= the proved theorem), assertion_free_statement, pb_linearizable_statement. "
-             "Not proved: assertion-freedom of crash executions with at most 3 replicas; linearizability under the weaker hypothesis 'no request applied twice' "
+             "Not proved: the two answer labels of a replica (rcvSyncRespLoop, rcvReplicaRespLoop) in crash executions with at most 3 replicas "
+             "(assertion_free_crash_le3_statement stays a Definition; false for >= 4); linearizability under the weaker hypothesis 'no request applied twice' "
              "(re-sends of lost requests allowed)."),
     "level_note": ("Trusted: Coq kernel; the hand-written model, tied by running the REAL pbkvs.AReplica/AClient archetypes step by step under the real Run loop "
                    "(harness/steplib gate FairnessCounter) and comparing the full spec state with the model's after every attempt; the spec-state resources that "
